@@ -268,8 +268,11 @@ def rule_c17_getters(prog: Program, col: Collector) -> None:
         for f in r.ctx:
             if f[0] == "if":
                 t, pol = f[1], f[2]
-                while t[0] == "un" and t[1] == "not":
-                    t, pol = t[2], not pol
+                while (t[0] == "un" and t[1] == "not") or (is_call_to(t, "bool") and len(t[2]) == 1):
+                    if t[0] == "un":
+                        t, pol = t[2], not pol
+                    else:
+                        t = t[2][0]
                 if is_call_to(t, "numpy.all", "all") and t[2] and any(
                         s[0] == "call" and s[1] == ("attr", SELF, "are_values_known") for s in subterms(t[2][0])) and pol is False:
                     # the known-test must be about the requested coalitions
